@@ -16,7 +16,7 @@ PROP = dict(
           "non-trivial = a span at least as wide as the columns beneath it or a shrink column. keyheader unit: projections of 1-4 config "
           "fields or .config, 1-20 results over values {x,y,z,missing}, keys sorted or in first-seen order; non-trivial = >=3 keys and >=2 "
           "levels. textcsv unit: C14's generator of files and flags, benchstat run in text and csv format; non-trivial = a table with >=2 "
-          "columns; warnings are compared per cell (text footnote marks after the summary / after the delta vs the CSV spreadsheet reference). Distinct = distinct case JSON."),
+          "columns; one case in six puts .config beside another field on the column axis; warnings are compared per cell (text footnote marks after the summary / after the delta vs the CSV spreadsheet reference). Distinct = distinct case JSON."),
     assumptions=[],
     units=[
         R("layout", "B", "./cmd/benchstat/internal/texttab", "TestC16Layout", (3000, 4), (100000, 16)),
